@@ -53,8 +53,11 @@ def job(j):
     if tid < NWIT:
         # deterministic witnesses: members of every unit alternate in the individual-level flags that the known
         # findings hinge on, so that those findings are observed on every run
-        structs = [popgen.CANON["family_2"], popgen.CANON["couple_unmarried"], popgen.CANON["single_parent_2"], popgen.CANON["stepchild_elsewhere"]]
-        prof = {"bürgerg_bezug_vorj": lambda i, r, d, rr: i % 2 == 0, "alleinerz": lambda i, r, d, rr: i % 2 == 1 and d["alter"] >= 18,
+        structs = [popgen.CANON["family_2"], popgen.CANON["couple_unmarried"], popgen.CANON["single_parent_2"], popgen.CANON["stepchild_elsewhere"], popgen.CANON["self_sufficient_child"]]
+        # wealth between the limits of needs units of different size inside one Wohngeld part-household (a child covering its own
+        # needs next to its parent): 40000 + 25000 + 15000 lies between the limit for one and for two persons
+        prof = {"vermögen_bedürft": lambda i, r, d, rr: 40000.0 if d["alter"] >= 25 else (25000.0 if d.get("eigenbedarf_gedeckt") else 15000.0),
+                "bruttolohn_m": lambda i, r, d, rr: 1500.0 if d["alter"] >= 25 else (1000.0 if d.get("eigenbedarf_gedeckt") else 0.0),"bürgerg_bezug_vorj": lambda i, r, d, rr: i % 2 == 0, "alleinerz": lambda i, r, d, rr: i % 2 == 1 and d["alter"] >= 18,
                 "monate_elterngeldbezug": lambda i, r, d, rr: (3 * i) % 14 if d["alter"] >= 18 else 0, "elterngeld_claimed": lambda i, r, d, rr: d["alter"] >= 18}
     P = popgen.compose(structs, date, rnd, sparse=rnd.random() < 0.5, profile=prof)
     if rnd.random() < 0.6 and tid % 3 != 0:   # several units in ONE household (every third population keeps its households apart)
